@@ -1,40 +1,31 @@
-"""Per-property configuration of the checks (DESIGN.md §8)."""
+"""Registry of the per-property check configurations.
 
-def comp_scope(*comps):
-    s = set(comps)
-    return lambda comp, fn: comp in s
+Each tools/props.d/<Cxx>.py defines
 
-PROPS = {
-    "C13": dict(
-        extract=["bopomofo", "syllable"],
-        lean_targets=["Chewing.Props.C13"],
-        runs=[dict(bin="syl")],
-        scope=comp_scope("syl"),
-        level="proof",
-        exhaustive=True,
-        rule="exhaustive: every 16-bit code (accessors, spelling, removers, pop, C conversion), update on codes x 42 symbols "
-             "(all codes in the thorough tier), every builder transition from every reachable builder state, the starts_with "
-             "shift class of every code; plus seeded random strings and pairs. distinct = distinct record text",
-        trusted_base=["kernel evaluation (`decide +kernel`) of finite table facts over the generated tables; no native_decide"],
-        assumptions=["a Bopomofo symbol is modelled by its enum discriminant, a syllable by its u16 code",
-                     "known finding F18: strings containing the first-tone mark are outside spell_parse (refutation proved)"],
-    ),
-}
+  PROP = dict(
+    extract=[…],            # translator extractors the property's theorems depend on
+    lean_targets=[…],       # lake targets that must build (the Props module)
+    runs=[dict(bin=…, args=[…], args_thorough=[…], tag=…, features=[…], timeout=…, env={…}), …],
+    scope=lambda comp, fn: bool,   # transcript records whose model behaviour the theorems use
+    level="proof", exhaustive=bool, rule="…", trusted_base=[…], assumptions=[…],
+  )
+  MANIFEST = dict(text=…, note=…, technique=…, category="proof")
 
-# ---------------------------------------------------------------------------
-# Text for MANIFEST.json (tools/gen_manifest.py)
-MANIFEST_TEXT = {
-    "C13": dict(
-        text="Lean 4 theorems (Chewing/Props/C13.lean) over a bit-level model whose masks, shifts and symbol tables are regenerated "
-             "from src/zhuyin/{syllable,bopomofo}.rs on every run: non-zero unique code, component / code / spelling round trips, "
-             "unique spelling, the parser accepts exactly strictly-kind-increasing symbol strings (induction over all strings), "
-             "update/remove act on one component, starts_with <-> agreement up to the last present component (all pairs, by "
-             "arithmetic, no pair enumeration). Tie: translator + exhaustive correspondence over all 65536 codes and every "
-             "builder transition. Known finding F18 (first-tone mark) is proved as a refutation and excluded by hypothesis.",
-        note="Trusted: Lean kernel (axioms propext, Classical.choice, Quot.sound only), tools/extract.py, the harness and the "
-             "compiled model driver. A symbol is modelled by its discriminant and a syllable by its u16 code.",
-        technique="Lean 4 proof (induction + kernel-evaluated finite tables + omega) over a translator-regenerated model; exhaustive model/implementation correspondence",
-    ),
-}
+and may define NOT_YET = "reason" instead of PROP when the property is not claimed.
+"""
+import glob, importlib.util, os, sys
 
-NOT_YET = {}
+HERE = os.path.dirname(os.path.abspath(__file__))
+sys.path.insert(0, HERE)
+
+PROPS, MANIFEST_TEXT, NOT_YET = {}, {}, {}
+for path in sorted(glob.glob(os.path.join(HERE, "props.d", "C*.py"))):
+    pid = os.path.basename(path)[:-3]
+    spec = importlib.util.spec_from_file_location("props_" + pid, path)
+    mod = importlib.util.module_from_spec(spec)
+    spec.loader.exec_module(mod)
+    if hasattr(mod, "PROP"):
+        PROPS[pid] = mod.PROP
+        MANIFEST_TEXT[pid] = mod.MANIFEST
+    elif hasattr(mod, "NOT_YET"):
+        NOT_YET[pid] = mod.NOT_YET
